@@ -25,6 +25,32 @@ CLAIMS = {
                 "all out-transactions and the transfers with positive fiat fee; amount and kind are the transaction's; tied by the translator and by comparing taxable events / income fractions of every run.",
         "note": "transfer fees whose fiat value rounds to 0 at 13 decimals are finding F8 (KNOWN_FINDINGS.txt).",
         "technique": "Coq proof over translated model + differential correspondence", "design_ref": "6 C03"},
+    "C04": {
+        "text": "Coq theorems: the proceeds / cost-basis / gain formulas re-derived from gain_loss.py on every run are (taxable fiat value x amount) / total and (lot cost x amount) / lot amount, "
+                "each within 1.1e-30 relative of exact rational arithmetic (DecProofs: half-even rounding to 31 digits, division with sticky bit), gain within 5e-31 of their difference, exact re-assembly in Q, "
+                "supplied fiat values win; every fraction of every run is compared digit for digit with the 31-digit decimal model and with exact rationals computed from the raw rows.",
+        "note": "CPython's decimal is modelled by Base/Dec.v (validated by correspondence); 'no float' is the translator-checked FloatOperation trap + exact 31-digit agreement.",
+        "technique": "Coq proof (decimal arithmetic model) + exact differential correspondence", "design_ref": "6 C04"},
+    "C06": {
+        "text": "Model of _create_yearly_gain_loss_list (grouping by (local year, type, long/short), running decimal sums, to-date cut, year filter, sort) with theorems that every line is the left-to-right sum over exactly "
+                "the fractions of its key and lines exist only for keys with fractions; yearly list of every windowed run compared with sums over the detail fractions and with the model.",
+        "note": INTERIM + "to-date cut needs monotone local dates (finding F9).",
+        "technique": "Coq proof + differential correspondence + summation oracle", "design_ref": "6 C06"},
+    "C07": {
+        "text": "Model of BalanceSet (time-sorted replay of in + intra + out, four dictionaries, to-date cut, sort by account name) with theorems that per account acquired/sent/received are the sums of its flows, "
+                "final = acquired + received - sent, every touched account appears once, total = everything acquired minus everything that left; runs compared with flows recomputed from raw rows, with lot remainders and with the model.",
+        "note": INTERIM + "reconciliation with lots assumes no dust transfer fee (F8) and consistent optional crypto_out_with_fee; to-date cut needs monotone dates (F9).",
+        "technique": "Coq proof + differential correspondence + flow oracle", "design_ref": "6 C07"},
+    "C08": {
+        "text": "Theorems on the balance replay: rejection without -n happens exactly at the first debit that leaves the debited account below -5e-11 (quantised test), never with -n; hence > 1e-10 below zero is always rejected and "
+                "never-negative histories never are; runs with and without -n on overdraft-injected histories compared with an independent replay and with the model (accept / reject + account named).",
+        "note": INTERIM + "balances between -1e-10 and 0 are unconstrained by the property.",
+        "technique": "Coq proof + differential correspondence + replay oracle", "design_ref": "6 C08"},
+    "C10": {
+        "text": "Theorems: the window iterators are filters (from <= day <= to) on date-sorted lists, figures of a fraction are functions of (event, lot, amount) only and the matcher never sees the window; "
+                "each history is run unfiltered and windowed and the windowed ComputedData must equal the unfiltered one restricted to the window (figures, running sums, labels, balances up to the to-date), and the model.",
+        "note": INTERIM + "claimed for histories whose local dates are monotone in time (finding F9).",
+        "technique": "Coq proof + metamorphic differential correspondence", "design_ref": "6 C10"},
     "C09": {
         "text": "Coq theorem spec_prefix_stable: the matching of events <= T is a prefix of the matching of any extension dated after T (unbounded, any continuation); metamorphic runs of the implementation "
                 "(prefix vs full history; -t D vs truncated history) compared with each other and with the model.",
